@@ -74,6 +74,7 @@ class Loaded:
                 "max": sym.sym_max,
                 "min": sym.sym_min,
                 "print": lambda *a, **k: None,
+                "open": ghost.ghost_open,
                 "__psvc_loop_enter__": _loop_enter,
                 "__psvc_loop_back__": _loop_back,
             }
